@@ -770,6 +770,10 @@ mod span;
 mod timestamp;
 pub mod tz;
 mod util;
+#[cfg(all(jiff_verif, feature = "std"))]
+#[doc(hidden)]
+#[path = "verif.rs"]
+pub mod __verif;
 mod zoned;
 
 /// Longer form documentation for Jiff.
